@@ -332,6 +332,9 @@ def step (w : World) (ws : List String) : World × List String :=
       let f : OptInfo → OptInfo := fun i => if kind == "w" then { i with valid2Cb := true } else { i with validCb := true }
       let (cfg', ok) := apiRegister x.cfg (bytesOfHex p) f
       (setCtx w ci (some { x with cfg := cfg' }), [if ok then "R 0" else "R -1"])
+  | ["PFN", c, p, on] => withCtx c fun ci x =>
+      let (cfg', ok) := apiRegister x.cfg (bytesOfHex p) (fun i => { i with printCb := on == "1" })
+      (setCtx w ci (some { x with cfg := cfg' }), [if ok then "R 0" else "R -1"])
   | "FL" :: c :: sp :: names => withCtx c fun ci x =>
       -- install a print filter (hiding `names`) on the section at `sp` ("." = the context itself)
       let hide := names.map bytesOfHex
